@@ -478,10 +478,43 @@ pub fn run_match_pub(bytes: &[u8], ctx: &Ctx) -> CaseInfo {
     run_match(bytes, ctx)
 }
 
+// ---- matcha / matchu in macro syntax, through the compile pipeline ------------------------------
+
+fn nt_surface(p: &Program, _kinds: &[&'static str]) -> bool {
+    p.body.iter().map(|g| if let Goal::Match(_, _, a) = g { a.len() } else { 0 }).max().unwrap_or(0) >= 2
+}
+
+fn fam_surface() -> crate::props::surface::SurfaceFamily {
+    crate::props::surface::SurfaceFamily {
+        prop: "C08",
+        name: "matcha-matchu-surface",
+        max_len: 160,
+        quick: 450,
+        thorough: 6_000,
+        decode: crate::gen::surface::gen_c13_committed,
+        variants: crate::props::surface::one_variant,
+        nontrivial: nt_surface,
+    }
+}
+
+fn custom(tier: Tier, seed: u64, stats: &mut Stats) -> Result<(), String> {
+    // debugging aid: PVH_FAMILY restricts a run to one family
+    if let Ok(f) = std::env::var("PVH_FAMILY") {
+        if f != "matcha-matchu-surface" {
+            return Ok(());
+        }
+    }
+    crate::props::surface::drive(&fam_surface(), tier, seed, stats)
+}
+
+fn custom_replay(_fam: &str, bytes: &[u8], ctx: &Ctx) -> Result<CaseInfo, String> {
+    crate::props::surface::replay_one(&fam_surface(), bytes, ctx)
+}
+
 pub fn def() -> PropertyDef {
     PropertyDef {
         id: "C08",
-        rule: "a deterministic prefix (equalities) then conda / condu with 1-3 clauses [head, rest…] or onceo{g}; heads are family S goals over the 3 query variables (0, 1 or many answers, lazily produced through closures and recursive relations) or, for condu/onceo, infinite producers. Oracle (metamorphic): k = first clause whose head run alone after the prefix has an answer; conda: answers = answers of `prefix, head_k, rest_k`; condu/onceo: answers = answers of `prefix, <first head answer re-imposed as goals>, rest_k`; no clause => no answers; onceo <= 1 answer; conda additionally equals the reference interpreter's soft-cut. A second family builds matcha/matchu and compares with the reference expansion. Non-trivial = the committed head has >=2 answers, or its first answer needs lazy steps, or k>1 (match family: >=2 arms); distinct = hash of the printed program. Family `fd-heads`: a family F posting sequence (domains, constraints, equalities over 3 variables with a wide base domain first) cut into prefix | conda head | rest plus fallback clauses; an empty result is also accepted when an earlier head has no labeled solution (its stream may still be non-empty). Family `scale`: the committed or an earlier failing head is a goal with one large dimension (first answer after up to millions of engine steps)",
+        rule: "a deterministic prefix (equalities) then conda / condu with 1-3 clauses [head, rest…] or onceo{g}; heads are family S goals over the 3 query variables (0, 1 or many answers, lazily produced through closures and recursive relations) or, for condu/onceo, infinite producers. Oracle (metamorphic): k = first clause whose head run alone after the prefix has an answer; conda: answers = answers of `prefix, head_k, rest_k`; condu/onceo: answers = answers of `prefix, <first head answer re-imposed as goals>, rest_k`; no clause => no answers; onceo <= 1 answer; conda additionally equals the reference interpreter's soft-cut. A second family builds matcha/matchu and compares with the reference expansion. Non-trivial = the committed head has >=2 answers, or its first answer needs lazy steps, or k>1 (match family: >=2 arms); distinct = hash of the printed program. Family `matcha-matchu-surface` (compile pipeline): C13's generated pattern-matching programs in their committed-choice forms, emitted as macro syntax, compiled and compared with the reference expansion (first goal of an arm = `t == p` is the committed head). Family `fd-heads`: a family F posting sequence (domains, constraints, equalities over 3 variables with a wide base domain first) cut into prefix | conda head | rest plus fallback clauses; an empty result is also accepted when an earlier head has no labeled solution (its stream may still be non-empty). Family `scale`: the committed or an earlier failing head is a goal with one large dimension (first answer after up to millions of engine steps)",
         assumptions: vec!["'first answer in engine order' is by definition what the engine yields for the head alone", "reference interpreter correct (conda half, match family)"],
         families: vec![
             Family { name: "conda-condu-onceo", max_len: 200, quick: 80_000, thorough: 2_000_000, run: run_family },
@@ -493,7 +526,7 @@ pub fn def() -> PropertyDef {
         witnesses: vec![],
         exhaustive: None,
         exhaustive_in_quick: false,
-        custom: None,
-        custom_replay: None,
+        custom: Some(custom),
+        custom_replay: Some(custom_replay),
     }
 }
